@@ -207,7 +207,28 @@ def instantiated_subclasses(repo, base):
     return out
 
 
+def r03j(ctx):
+    """Every export starts from the SuperNet itself: the surgery consumes a graph made for this
+    export (a fresh trace or a copy).  A GraphModule that adopts the seed's own fx graph lets
+    the first export erase the losing branches *of the SuperNet*: every later export returns
+    the first winners whatever the coefficients are (shared with C18 R18b)."""
+    from ..effects import Effects
+    repo = ctx.repo
+    E = Effects(repo)
+    f = repo.cls('SuperNet').methods['export']
+    effs = [e for e in E.closure(f) if e.kind == 'struct' and
+            e.owners & {'self', 'g:self', 'unknown', 'global'}]
+    ctx.ob('R03j', 'SuperNet.export rewrites a graph of its own', not effs,
+           'graph surgery runs on a fresh trace / copy: the SuperNet keeps every branch' if
+           not effs else
+           '; '.join(f'{e.name} at {e.where()} ({e.detail[:70]})' for e in effs[:3]) +
+           ': the surgery edits the graph the SuperNet itself runs on, so a second export (after '
+           'the coefficients changed) no longer finds the branches and returns the first winners',
+           where(f))
+
+
 def run(ctx):
+    r03j(ctx)
     # premise of 'export equals the SuperNet under hard selection': asking for hard selection
     # switches every combiner (shared with C11)
     from .c11 import options_reach_every_layer
